@@ -102,24 +102,29 @@ type Sim struct {
 	Stats  map[string]int
 	Probes map[string]int
 
-	traceEnd       int
-	Triggers       []*Trigger
-	tokenResets    []*tokenResetRec
-	deferredReq    *CReq
-	pendingAcc     []pendingAccess
-	connGone       map[int]int
-	tokenResetSubj map[string]bool
-	afterSettle    []func()
-	cliBudget      int
-	svcBudget      int
-	httpBudget     int
-	faultBudget    int
-	skipped        int
-	gwStopped      bool
-	seamSeen       int
-	lastUse        map[string]time.Duration
-	refetchFailed  map[*Variant]bool
-	sawDerived     map[*Variant]bool
+	traceEnd         int
+	Triggers         []*Trigger
+	tokenResets      []*tokenResetRec
+	deferredReq      *CReq
+	QEvents          []*QEventRec
+	querySubj        map[string]string
+	Refetches        []*RefetchRec
+	quietReset       *ResetRec
+	pendingAcc       []pendingAccess
+	connGone         map[int]int
+	tokenResetSubj   map[string]bool
+	afterSettle      []func()
+	cliBudget        int
+	svcBudget        int
+	httpBudget       int
+	faultBudget      int
+	skipped          int
+	gwStopped        bool
+	seamSeen         int
+	lastUse          map[string]time.Duration
+	refetchFailed    map[*Variant]bool
+	sawDerived       map[*Variant]bool
+	deletedByRefetch map[*Variant]bool
 
 	stopped     bool
 	stallTarget string
@@ -130,18 +135,20 @@ type Sim struct {
 
 func newSim(cfg *RunCfg) *Sim {
 	s := &Sim{
-		Cfg:            cfg,
-		rng:            rand.New(rand.NewPCG(cfg.Seed, 0x9E3779B97F4A7C15)),
-		mrng:           rand.New(rand.NewPCG(cfg.Seed^0xD1B54A32D192ED03, 0xA0761D6478BD642F)),
-		seen:           map[any]int{},
-		cidIdx:         map[string]int{},
-		Stats:          map[string]int{},
-		Probes:         map[string]int{},
-		srcCnt:         map[string]int{},
-		refetchFailed:  map[*Variant]bool{},
-		tokenResetSubj: map[string]bool{},
-		connGone:       map[int]int{},
-		sawDerived:     map[*Variant]bool{},
+		Cfg:              cfg,
+		rng:              rand.New(rand.NewPCG(cfg.Seed, 0x9E3779B97F4A7C15)),
+		mrng:             rand.New(rand.NewPCG(cfg.Seed^0xD1B54A32D192ED03, 0xA0761D6478BD642F)),
+		seen:             map[any]int{},
+		cidIdx:           map[string]int{},
+		Stats:            map[string]int{},
+		Probes:           map[string]int{},
+		srcCnt:           map[string]int{},
+		refetchFailed:    map[*Variant]bool{},
+		tokenResetSubj:   map[string]bool{},
+		connGone:         map[int]int{},
+		querySubj:        map[string]string{},
+		sawDerived:       map[*Variant]bool{},
+		deletedByRefetch: map[*Variant]bool{},
 	}
 	s.obsHash = 1469598103934665603
 	return s
